@@ -338,6 +338,8 @@ pub fn spec(id: &str) -> Option<CheckSpec> {
         "C20" => {
             g.w.drop_range = 3;
             g.w.clear = 2;
+            g.w.iter_open = 4;
+            g.w.iter_step = 8;
             g.w.snap_open = 5;
             g.w.snap_release = 6;
             g.w.reopen = 2;
